@@ -29,7 +29,7 @@ Theorem C05_price_is_sum_of_means :
      price_run sample cost alloc conv garbage df notional level_max 0 fuel L0 N0 = Fallthrough s) ->
     mlmc_price (levels s) == sum_level_means sample df notional 0 (levels s)
     /\ forall x, snd (mk_row df notional 0 x) == 0.
-Proof. intros. split; [eapply price_is_sum_of_means; eassumption|apply coarse_zero_level0]. Qed.
+Proof. exact price_is_sum_of_means_full. Qed.
 
 (* ml, vl, mean_level_l, var_level_l, kurtosis, cl are the textbook functions of the same rows
    (the code's central-moment detour equals the raw moments) *)
